@@ -118,15 +118,22 @@ def group_deps(group):
     return deps
 
 
-def build_group(group, log):
-    """Full .vo build of one group (and the groups it depends on) with coq_makefile + make."""
+def build_group(group, log, exclude=None):
+    """Full .vo build of one group (and the groups it depends on) with coq_makefile + make.
+    exclude: file names of the group's _CoqProject left out (the 'core' build used when an optional,
+    redundant translator tie of the group cannot be re-established; see run_check_locked)."""
     for d in group_deps(group):
         ok = build_group(d, log)
         if not ok:
             return False
     gdir = os.path.join(COQ, group)
     with Lock("coq-" + group):
-        rc, out = sh(["coq_makefile", "-f", "_CoqProject", "-o", "Makefile.coq"], cwd=gdir)
+        proj = "_CoqProject"
+        if exclude:
+            lines = [l for l in open(os.path.join(gdir, "_CoqProject")).read().splitlines() if l.strip() not in exclude]
+            proj = "_CoqProject.core"
+            open(os.path.join(gdir, proj), "w").write("\n".join(lines) + "\n")
+        rc, out = sh(["coq_makefile", "-f", proj, "-o", "Makefile.coq"], cwd=gdir)
         if rc != 0:
             log.append(out)
             return False
@@ -339,15 +346,29 @@ def run_check_locked(pid, tier, seed, replay=None, n_override=None):
     os.makedirs(replay_dir, exist_ok=True)
 
     broken = []          # (what no longer checks, detail)
+    # a tie that is REDUNDANT with the correspondence tie (the translated function is also hand-modelled and
+    # the hand model is compared with the implementation on every recorded case): when it cannot be
+    # re-established after a rewrite of the code while the hand-model theorems and the whole correspondence
+    # still check, the property is still shown to hold at the strength every non-translated property has;
+    # the run then reports TIE-DEGRADED instead of a violation.  Anything else wrong in the same run and the
+    # degraded tie is reported as broken as before.
+    degraded = []
+    opt_files = set(cfg.get("optional_tie_files", []))
     # 1. translators
     for g in cfg.get("gen", []):
         rc, out = sh(g["cmd"], cwd=VERIF, env=dict(GOENV, VERIF_REPO=REPO), timeout=1800)
         log.append("== gen %s (rc=%d)\n%s" % (g["cmd"], rc, out[-3000:]))
         if rc != 0:
-            broken.append(("translator " + g["name"], out[-1500:]))
+            (degraded if g.get("optional") and opt_files else broken).append(("translator " + g["name"], out[-1500:]))
 
     # 2. Coq
     built = build_group(group, log)
+    if (not built or degraded) and opt_files:
+        # the generated twin does not build (or was not regenerated: the file on disk is stale): build the
+        # group without it
+        if not built:
+            degraded.append(("Coq build of the generated twin in group " + group, log[-1][-1500:]))
+        built = build_group(group, log, exclude=opt_files)
     toks = forbidden_tokens(group)
     props = dict(theorems=[], obligations=0, closed=0, axioms=[], ok=False, output="")
     if not built:
@@ -360,7 +381,10 @@ def run_check_locked(pid, tier, seed, replay=None, n_override=None):
     # further statement files of this property kept in other groups (cross-group theorems)
     for xp in cfg.get("extra_props", []):
         xg, xf = xp["group"], xp["file"]
-        xbuilt = build_group(xg, log)
+        if degraded and xg == group and xf in opt_files:
+            degraded.append(("theorems of coq/%s/%s (twins about the generated definitions)" % (xg, xf), "not re-established in this run"))
+            continue
+        xbuilt = build_group(xg, log, exclude=opt_files if (degraded and xg == group) else None)
         toks += forbidden_tokens(xg)
         if not xbuilt:
             broken.append(("Coq build of group " + xg, log[-1][-2500:]))
@@ -473,6 +497,13 @@ def run_check_locked(pid, tier, seed, replay=None, n_override=None):
             pid, known_sigs[sig]["what"], sig, r["case"], r["detail"]))
     exit_code = 0
     nviol = 0
+    # a degraded redundant tie only stays "degraded" when everything else checks: the hand-model theorems
+    # compiled, every recorded case agrees with the model, no monitor fired; otherwise it is a broken obligation
+    if degraded and (broken or new_viol or mismatches or not (built and props["ok"]) or not stats_all):
+        broken += degraded
+        degraded = []
+    for d in degraded:
+        lines.append("TIE-DEGRADED: property=%s %s could not be re-established against the current source; the hand-model theorems and the correspondence on all recorded cases still check (the redundant translator tie is not a deciding obligation, DESIGN 10.5)" % (pid, d[0]))
     if new_viol:
         by_sig = {}
         for r in new_viol:
@@ -555,6 +586,7 @@ def run_check_locked(pid, tier, seed, replay=None, n_override=None):
             samples=samples[:10] or ["(no cases)"],
             input_distribution=[dict(harness=s.get("harness"), steps=s.get("steps"), hist=s.get("hist")) for s in stats_all],
             monitor_failures=len(monitor_hits), known_findings_seen=sorted(seen_known),
+            degraded_ties=[d[0] for d in degraded],
             coqchk=coqchk_note,
             exhaustive=False,
         ),
